@@ -220,6 +220,12 @@ pub fn dry_run(scn: &Scenario, pol: &ScriptPolicy, r: &mut Rng) -> (History, Vec
                 } else if x < pol.quit_pct + pol.print_pct + pol.garbage_pct {
                     if rr.chance(4) {
                         (AnsKind::Garbage, format!("{}\n", "x".repeat(5000)).into_bytes())
+                    } else if rr.chance(10) {
+                        // k ASCII characters, then multi-byte ones: some character straddles every
+                        // small byte offset (16, 32, 64, 128, 255 ...) sooner or later
+                        let k = rr.urange(0, 260);
+                        let tail = *rr.pick(&["\u{e9}\u{e9}\u{e9}\u{e9}", "\u{20ac}\u{20ac}\u{20ac}", "\u{1f600}\u{1f600}", "\u{e9}\u{20ac}\u{1f600}\u{e9}"]);
+                        (AnsKind::Garbage, format!("{}{}\n", "g".repeat(k), tail).into_bytes())
                     } else {
                         (AnsKind::Garbage, rr.pick(&GARBAGE).as_bytes().to_vec())
                     }
